@@ -14,6 +14,7 @@ SeqToSet(s) == {s[k] : k \in 1..Len(s)}
 TInit == Init /\ l = 1
 TReset == /\ IsEv("Reset")
           /\ slot' = Trace[l].s0 /\ started' = FALSE
+          /\ inited' = (~Trace[l].initd \/ Role = "att")
           /\ truth' = [k \in Keys |-> [v \in Validators |-> IF k = MaxKey THEN 0 ELSE Unset]]
           /\ nextAssign' = 0
           /\ active' = SeqToSet(Trace[l].active)
@@ -29,6 +30,9 @@ TAssign == /\ IsEv("Assign")
            /\ Assign
            /\ act'.key = Trace[l].key
            /\ act'.vals = SeqToSet(Trace[l].vals)
+TInitial == /\ IsEv("InitialDuties")
+            /\ InitialDuties
+            /\ act'.fetches = Trace[l].fetches
 TTick == /\ IsEv("Tick")
          /\ Tick
          /\ act'.slot = Trace[l].slot
@@ -44,7 +48,7 @@ TReorg == /\ IsEv("Reorg")
 TIndices == /\ IsEv("IndicesChange")
             /\ IndicesChange
             /\ act'.active = SeqToSet(Trace[l].active)
-TNext == TReset \/ TAssign \/ TTick \/ TReorg \/ TIndices
+TNext == TReset \/ TAssign \/ TInitial \/ TTick \/ TReorg \/ TIndices
 TraceSpec == TInit /\ [][TNext]_tvars
 TraceAccepted == TLCGet("stats").diameter - 1 = Len(Trace)
 =============================================================================
